@@ -65,7 +65,7 @@ def rand_x(r, declared, default):
             u = declared[p] if r.random() < 0.7 else r.choice(URIS)
         else:
             p, u = r.choice(PFX), r.choice(URIS)
-        return {"form": "qn", "prefix": p, "ns": u, "local": local}
+        return {"form": "qn", "prefix": p, "ns": u, "local": local, "odd": True}
     if form == "str":
         p = r.choice(sorted(declared)) if declared and r.random() < 0.8 else r.choice(PFX)
         return {"form": "str", "s": "%s:%s" % (p, local)}
